@@ -24,6 +24,7 @@ const (
 type Profile struct {
 	Name       string             `json:"name"`
 	Actors     int                `json:"actors"`
+	AddrLens   []int              `json:"addr_lens,omitempty"` // address length of the first actors (0 = 20 bytes)
 	MaxBlocks  int                `json:"max_blocks"`
 	MaxTxs     int                `json:"max_txs"`
 	MaxPerBlk  int                `json:"max_per_block"`
@@ -54,6 +55,8 @@ type Profile struct {
 	// findings (start == end batches, public resolvers) so that the run can
 	// explore past them; the other runs still generate them.
 	AvoidKnown bool `json:"avoid_known"`
+	// PTie: probability that a new batch copies the start date of an existing one.
+	PTie float64 `json:"p_tie"`
 }
 
 type Actor struct {
@@ -62,9 +65,21 @@ type Actor struct {
 	Gov  bool
 }
 
-func actorAddr(i int) sdk.AccAddress {
-	h := sha256.Sum256([]byte(fmt.Sprintf("simchain-actor-%d", i)))
-	return sdk.AccAddress(h[:20])
+func actorAddr(i int) sdk.AccAddress { return actorAddrLen(i, 20) }
+
+// actorAddrLen: account addresses are 20 bytes for key accounts, 32 bytes for
+// module-derived and group-policy accounts, and anything from 1 to 255 bytes is
+// a valid address format.
+func actorAddrLen(i, n int) sdk.AccAddress {
+	var out []byte
+	for c := 0; len(out) < n; c++ {
+		h := sha256.Sum256([]byte(fmt.Sprintf("simchain-actor-%d-%d", i, c)))
+		if c == 0 {
+			h = sha256.Sum256([]byte(fmt.Sprintf("simchain-actor-%d", i)))
+		}
+		out = append(out, h[:]...)
+	}
+	return sdk.AccAddress(out[:n])
 }
 
 type pendingTx struct {
@@ -474,6 +489,9 @@ func NewGen(property string, tier string, vseed, runIdx uint64, ck Checker) (*Ge
 	g := &Gen{R: r, P: p}
 	for i := 0; i < p.Actors; i++ {
 		acc := actorAddr(i)
+		if i < len(p.AddrLens) && p.AddrLens[i] > 0 {
+			acc = actorAddrLen(i, p.AddrLens[i])
+		}
 		g.Actors = append(g.Actors, &Actor{Addr: acc.String(), Acc: acc})
 	}
 	gov := sdk.AccAddress(govAddr())
